@@ -2,6 +2,7 @@
 //! Prints one JSON object: {"found":bool,"cases":N,"witness":{...}|null}
 mod spec;
 mod p_kmer;
+mod p_min;
 
 use std::collections::HashMap;
 
@@ -81,6 +82,8 @@ fn main() {
     let res = std::panic::catch_unwind(|| match args[1].as_str() {
         "c01" => p_kmer::c01(&o),
         "c02" => p_kmer::c02(&o),
+        "c09" => p_min::c09(&o),
+        "c18" => p_min::c18(&o),
         other => {
             eprintln!("unknown command {}", other);
             std::process::exit(2);
